@@ -1,5 +1,7 @@
 """Structured generator for `gin`-domain cases (registrations, bindings, scoped calls)."""
 ALPHA = ['a', 'b', 'c']
+# scope components include look-alikes: 'a' is a character prefix of 'ab' / 'a_b' but not a component prefix
+SCOPE_ALPHA = ['a', 'b', 'c', 'ab', 'a_b', 'a']
 PNAMES = ['x', 'y', 'z', 'w', 'v', 'u']
 MODULES = ['m', 'm.n', 'k.n', 'k', 'q.m.n']
 LEAVES = ['f', 'g', 'h']
@@ -103,7 +105,7 @@ def gen_registry(rng, n, **sigkw):
 
 
 def rand_scope(rng, maxdepth=4):
-  return [rng.choice(ALPHA) for _ in range(rng.randint(0, maxdepth))]
+  return [rng.choice(SCOPE_ALPHA) for _ in range(rng.randint(0, maxdepth))]
 
 
 def gen_enter(rng, target_scope=None, w_invalid=0.0):
@@ -320,7 +322,9 @@ def gen_history(rng, regs, n, scopes, depth=0, w=None, next_obj=None):
       h = gen_hook(rng, regs, scopes, w_raise=w.get('hook_raise', 0.15), earlier=earlier)
       earlier += hook_keyspecs(h, regs)
       ops.append(h)
-    elif r < 0.9:
+    elif r < 0.81:
+      ops.append({'op': 'interactive', 'on': rng.random() < 0.6})
+    elif r < 0.93:
       ops.append({'op': 'locked'})
     else:
       ops.append({'op': 'config'})
